@@ -7,7 +7,7 @@
 //  - EXACT: solves with the stored matrix (or with the operator it is given, column by column)
 //    by dense LU with partial pivoting in long double (class O: apply(K x) = x within 1e-9).
 //
-// usage: record_composite <mode>     mode: schur | schurO | pattern | cpr | cprO | defl | deflmt
+// usage: record_composite <mode>     mode: schur | schurO | pattern | cpr | cprO | defl | deflmt | reuse
 #include <vrec.hpp>
 #include <deque>
 #include <map>
@@ -20,6 +20,7 @@
 #include <amgcl/preconditioner/cpr.hpp>
 #include <amgcl/preconditioner/cpr_drs.hpp>
 #include <amgcl/deflated_solver.hpp>
+#include <amgcl/make_solver.hpp>
 #include <amgcl/relaxation/spai0.hpp>
 #include <amgcl/relaxation/as_preconditioner.hpp>
 #include <amgcl/solver/cg.hpp>
@@ -439,6 +440,24 @@ static std::shared_ptr<crsd> cpr_matrix(vr::rng &g, int nb, int B, int extra, bo
     }
     return vr::from_rows(n, n, rows);
 }
+// integer matrix for the DRS criterion: full diagonal blocks with positive, negative and zero (k,0) entries of
+// magnitude 0..6, off-diagonal blocks with first-column entries of magnitude 0..3, first rows of varying weight
+static std::shared_ptr<crsd> drs_matrix(vr::rng &g, int nb, int B) {
+    int n = nb * B; std::vector<std::vector<std::pair<int, double>>> rows(n);
+    for (int ib = 0; ib < nb; ++ib) for (int i = 0; i < B; ++i) {
+        int r = ib * B + i;
+        for (int jb = 0; jb < nb; ++jb) {
+            bool diag = jb == ib; if (!diag && !g.coin(std::min(0.9, 2.5 / nb))) continue;
+            for (int j = 0; j < B; ++j) {
+                double v;
+                if (diag) v = (i == j) ? g.range(1, 6) * (j == 0 || g.coin(0.8) ? 1 : -1) : (j == 0 ? g.range(-6, 6) : (g.coin(0.5) ? g.range(-2, 2) : 0));
+                else v = g.coin(0.6) ? g.range(-3, 3) : 0;
+                if (diag || v != 0) rows[r].push_back({jb * B + j, v});
+            }
+        }
+    }
+    return vr::from_rows(n, n, rows);
+}
 struct CprObs { std::shared_ptr<crsd> App; std::vector<std::vector<double>> fpp, scat, prog; std::vector<double> x; bool ok = true; std::string exc; };
 // probe a constructed CPR-like object: Fpp columns, Scatter columns, one scripted program
 template <class Cpr, class VecT>
@@ -457,16 +476,22 @@ static void cpr_probe(Cpr &C, int nflat, int np, const std::vector<double> &f, c
     unflat(f, rhs, nvec); reg<0>().script.assign(1, s); reg<1>().script.assign(1, p); reg<1>().rhs.clear();
     C.apply(rhs, out); obs.prog.push_back(reg<1>().rhs.at(0)); obs.x = flat(out, nvec);
 }
+// the DRS thresholds (cpr_drs only; dyadic values in units of 1/64 so that eps * integer is exact)
+static int g_dd64 = 16, g_ps64 = 2;       // eps_dd = 0.25, eps_ps = 1/32
+template <class P> auto set_eps(P &p, int) -> decltype(p.eps_dd, void()) { p.eps_dd = g_dd64 / 64.0; p.eps_ps = g_ps64 / 64.0; }
+template <class P> void set_eps(P &, long) {}
+static void pick_eps(vr::rng &g) { const int dd[] = {16, 32, 64, 8, 128}, ps[] = {2, 16, 32, 0, 64}; g_dd64 = dd[g.below(5)]; g_ps64 = ps[g.below(5)]; }
+
 template <template <class, class> class CPR, int B>
 static void cpr_case(vr::rng &g, const crsd &K, int act, const char *variant) {
     const int n = K.nrows; const int N = act ? act : n; const int np = N / B;
     auto f = ivec(g, n), s = ivec(g, n), p = ivec(g, np);
     std::vector<std::vector<double>> sfpp; bool sfpp_set = false;      // Fpp columns observed with scalar input
-    vr::obj o; o.str("k", "cpr").str("variant", variant).i("B", B).i("act", act); o.raw("K", J(K, o));
+    vr::obj o; o.str("k", "cpr").str("variant", variant).i("B", B).i("act", act).i("dd64", g_dd64).i("ps64", g_ps64); o.raw("K", J(K, o));
     o.dbls("f", f).dbls("s", s).dbls("p", p);
     {   // scalar input, block_size = B
         typedef CPR<CP, CS> C; reg<0>().reset(); reg<1>().reset();
-        typename C::params prm; prm.block_size = B; prm.active_rows = act;
+        typename C::params prm; prm.block_size = B; prm.active_rows = act; set_eps(prm, 0);
         C cpr(K, prm);
         CprObs obs; obs.App = reg<1>().seen.at(0);
         o.raw("Ks", J(*reg<0>().seen.at(0), o));
@@ -474,13 +499,13 @@ static void cpr_case(vr::rng &g, const crsd &K, int act, const char *variant) {
         sfpp = obs.fpp; sfpp_set = true;
         o.raw("App", J(*obs.App, o)).raw("fpp", cols_json(obs.fpp, o.exact)).raw("scat", cols_json(obs.scat, o.exact)).raw("rp", cols_json(obs.prog, o.exact)).dbls("x", obs.x);
     }
-    bool blockrun = act == 0 && n % B == 0 && std::string(variant) != "drs";
+    bool blockrun = act == 0 && n % B == 0;
     o.b("block", blockrun);
     if (blockrun) {   // B x B block-valued input: the same action
         typedef typename blk<B>::BEb BEb; typedef CPR<CP, typename blk<B>::S> C; reg<0>().reset(); reg<1>().reset();
         typedef static_matrix<double, B, B> VT;
         auto Kb = adapter::block_matrix<VT>(K);
-        typename C::params prm;
+        typename C::params prm; set_eps(prm, 0);
         C cpr(Kb, prm);
         CprObs obs; obs.App = reg<1>().seen.at(0);
         cpr_probe<C, static_matrix<double, B, 1>>(cpr, n, np, f, s, p, obs, n / B);
@@ -542,12 +567,12 @@ static void cpr_update_case(vr::rng &g, const crsd &K, int act, const char *vari
                 }
             };
             reg<0>().reset(); reg<1>().reset();
-            if (!Block) { typedef CPR<CP, CS> C; typename C::params prm; prm.block_size = B; prm.active_rows = act; C cpr(K, prm); run(cpr, double(), n, Ku); }
+            if (!Block) { typedef CPR<CP, CS> C; typename C::params prm; prm.block_size = B; prm.active_rows = act; set_eps(prm, 0); C cpr(K, prm); run(cpr, double(), n, Ku); }
             else { typedef CPR<CP, typename blk<B>::S> C; typedef static_matrix<double, B, B> VT; auto Kb = adapter::block_matrix<VT>(K);
-                   typename C::params prm; C cpr(Kb, prm); run(cpr, static_matrix<double, B, 1>(), n / B, Kb); }
+                   typename C::params prm; set_eps(prm, 0); C cpr(Kb, prm); run(cpr, static_matrix<double, B, 1>(), n / B, Kb); }
             vr::obj o; o.b("same", same).b("rpsame", rpsame).i("d0lo", d0.lo()).i("d0hi", d0.hi()).i("d1lo", d1.lo()).i("d1hi", d1.hi()); return o.done();
         }, 20);
-        vr::obj o; o.str("k", "cprupd").str("variant", variant).i("B", B).i("act", act).i("n", n).b("block", Block).b("shuffled", (bool)Kupd).b("transfer", transfer == 1).b("hang", r.hang).b("crash", r.crash).i("sig", r.sig);
+        vr::obj o; o.str("k", "cprupd").str("variant", variant).i("B", B).i("act", act).i("n", n).i("dd64", g_dd64).i("ps64", g_ps64).b("block", Block).b("shuffled", (bool)Kupd).b("transfer", transfer == 1).b("hang", r.hang).b("crash", r.crash).i("sig", r.sig);
         o.raw("res", (r.hang || r.crash || r.text.empty()) ? "{\"same\":false,\"rpsame\":false,\"d0lo\":0,\"d0hi\":0,\"d1lo\":1,\"d1hi\":1}" : r.text);
         vr::emit(o.done());
     }
@@ -567,6 +592,15 @@ static void mode_cpr() {
         { auto K = cpr_matrix(g, nb + 1, 2, 0, true); cpr_case<cpr, 2>(g, *K, 0, "cpr"); cpr_update_case<cpr, 2, false>(g, *K, 0, "cpr"); }
         { auto K = cpr_matrix(g, nb + 1, 3, 0, true); cpr_case<cpr, 3>(g, *K, 0, "cpr"); cpr_case<cpr_drs, 3>(g, *K, 0, "drs"); cpr_update_case<cpr, 3, false>(g, *K, 0, "cpr"); cpr_update_case<cpr, 3, true>(g, *K, 0, "cpr"); }
         { auto K = cpr_matrix(g, nb + 1, 4, 0, true); cpr_case<cpr, 4>(g, *K, 0, "cpr"); cpr_update_case<cpr, 4, false>(g, *K, 0, "cpr"); cpr_update_case<cpr, 4, false>(g, *K, 0, "cpr", true); }
+        // cpr_drs with block-valued input and sign-indefinite diagonal blocks: negative (k,0) entries of various
+        // magnitudes relative to eps_dd * (off-diagonal column sum); thresholds varied
+        for (int q = 0; q < 2; ++q) {
+            pick_eps(g);
+            { auto K = drs_matrix(g, nb + 1, 2); cpr_case<cpr_drs, 2>(g, *K, 0, "drs"); cpr_update_case<cpr_drs, 2, true>(g, *K, 0, "drs"); cpr_update_case<cpr_drs, 2, false>(g, *K, 0, "drs"); }
+            { auto K = drs_matrix(g, nb + 1, 3); cpr_case<cpr_drs, 3>(g, *K, 0, "drs"); cpr_update_case<cpr_drs, 3, true>(g, *K, 0, "drs"); cpr_update_case<cpr_drs, 3, false>(g, *K, 0, "drs", true); }
+            { auto K = drs_matrix(g, nb, 4); cpr_case<cpr_drs, 4>(g, *K, 0, "drs"); cpr_update_case<cpr_drs, 4, true>(g, *K, 0, "drs"); }
+        }
+        g_dd64 = 16; g_ps64 = 2;
         // active_rows: trailing rows (wells) that are not part of the blocked reservoir unknowns
         { int ex = g.range(1, 3); auto K = cpr_matrix(g, nb, 2, ex); cpr_case<cpr, 2>(g, *K, nb * 2, "cpr"); cpr_case<cpr_drs, 2>(g, *K, nb * 2, "drs"); cpr_update_case<cpr, 2, false>(g, *K, nb * 2, "cpr"); cpr_update_case<cpr, 2, false>(g, *K, nb * 2, "cpr", true); }
         { int ex = g.range(1, 2); auto K = cpr_matrix(g, nb, 3, ex, r % 2 == 1); cpr_case<cpr, 3>(g, *K, nb * 3, "cpr"); }
@@ -658,6 +692,62 @@ template <class Solver> static void defl_case(vr::rng &g, const crsd &A, int nve
     } catch (const std::exception &e) { o.i("iters", 0).i("rel12", 0).i("rep12", 0).i("orth12", 0).str("exc", e.what()); }
     put(o);
 }
+// One solver object, built for A0, then asked to solve with ANOTHER matrix A1 through the
+// operator()(A1, rhs, x) overload (time stepping with changing coefficients): the returned x has to
+// solve A1 x = b.  The residuals with respect to A1 and to A0 are logged.
+static std::shared_ptr<crsd> perturbed(vr::rng &g, const crsd &A0) {
+    auto A1 = std::make_shared<crsd>(A0);
+    for (size_t i = 0; i < A1->nrows; ++i) for (ptrdiff_t p = A1->ptr[i]; p < A1->ptr[i + 1]; ++p)
+        A1->val[p] *= (A1->col[p] == (ptrdiff_t)i) ? 1.3 + 0.4 * g.unit() : 0.6 + 0.4 * g.unit();      // stays row-dominant
+    return A1;
+}
+static ld rel_residual(const crsd &A, const std::vector<double> &b, const std::vector<double> &x) {
+    std::vector<ld> xl(x.begin(), x.end()); auto Ax = matvecl(A, xl); ld rn = 0, bn = 0;
+    for (size_t i = 0; i < b.size(); ++i) { rn += (b[i] - Ax[i]) * (b[i] - Ax[i]); bn += (ld)b[i] * b[i]; }
+    return sqrtl(rn / bn);
+}
+template <class F> static void reuse_record(vr::rng &g, const char *wrapper, const char *sname, const crsd &A0, int nvec, F solve_with) {
+    const int n = A0.nrows; auto A1 = perturbed(g, A0);
+    std::vector<double> b(n); for (auto &v : b) v = g.range(-4, 4) + g.unit();
+    vr::obj o; o.str("k", "reuse").str("wrapper", wrapper).str("solver", sname).i("n", n).i("nvec", nvec);
+    try {
+        std::vector<double> x1(n, 0.0), x0(n, 0.0); double rep1 = 0, rep0 = 0;
+        solve_with(*A1, b, x1, rep1, true);       // operator()(A1, rhs, x)
+        solve_with(A0, b, x0, rep0, false);       // operator()(rhs, x): the matrix of the constructor
+        o.i("rel12", e12(rel_residual(*A1, b, x1))).i("relother12", e12(rel_residual(A0, b, x1))).i("rep12", e12(rep1))
+         .i("own12", e12(rel_residual(A0, b, x0))).str("exc", "");
+    } catch (const std::exception &e) { o.i("rel12", 0).i("relother12", 0).i("rep12", 0).i("own12", 0).str("exc", e.what()); }
+    put(o);
+}
+static void mode_reuse() {
+    vr::rng g(vr::env_seed() + 1809);
+    typedef relaxation::as_preconditioner<BE, relaxation::spai0> Pre;
+    int reps = vr::env_int("VERIF_REPS", vr::thorough() ? 12 : 3);
+    for (int r = 0; r < reps; ++r) for (int nvec = 1; nvec <= 5; nvec += 2) {
+        int n = 2 * g.range(10, vr::thorough() ? 100 : 40);
+        auto A0 = nonsym_matrix(g, n);
+        std::vector<double> Z(n * nvec, 0.0);
+        for (int j = 0; j < nvec; ++j) for (int i = j * n / nvec; i < (j + 1) * n / nvec; ++i) Z[j * n + i] = 1;
+        {   typedef deflated_solver<Pre, solver::bicgstab<BE>> DS; typename DS::params prm; prm.nvec = nvec; prm.vec = Z.data(); prm.solver.tol = 1e-10; prm.solver.maxiter = 2000;
+            DS ds(*A0, prm);
+            reuse_record(g, "deflated_solver", "bicgstab", *A0, nvec, [&](const crsd &A, const std::vector<double> &b, std::vector<double> &x, double &rep, bool with) {
+                size_t it; if (with) std::tie(it, rep) = ds(A, b, x); else std::tie(it, rep) = ds(b, x); }); }
+        {   typedef deflated_solver<Pre, solver::gmres<BE>> DS; typename DS::params prm; prm.nvec = nvec; prm.vec = Z.data(); prm.solver.tol = 1e-10; prm.solver.maxiter = 2000;
+            DS ds(*A0, prm);
+            reuse_record(g, "deflated_solver", "gmres", *A0, nvec, [&](const crsd &A, const std::vector<double> &b, std::vector<double> &x, double &rep, bool with) {
+                size_t it; if (with) std::tie(it, rep) = ds(A, b, x); else std::tie(it, rep) = ds(b, x); }); }
+        if (nvec == 1) {
+            {   typedef make_solver<Pre, solver::bicgstab<BE>> MS; typename MS::params prm; prm.solver.tol = 1e-10; prm.solver.maxiter = 2000;
+                MS ms(*A0, prm);
+                reuse_record(g, "make_solver", "bicgstab", *A0, 0, [&](const crsd &A, const std::vector<double> &b, std::vector<double> &x, double &rep, bool with) {
+                    size_t it; if (with) std::tie(it, rep) = ms(A, b, x); else std::tie(it, rep) = ms(b, x); }); }
+            {   typedef make_solver<preconditioner::cpr<Pre, Pre>, solver::bicgstab<BE>> MS; typename MS::params prm; prm.precond.block_size = 2; prm.solver.tol = 1e-10; prm.solver.maxiter = 2000;
+                MS ms(*A0, prm);
+                reuse_record(g, "make_solver+cpr", "bicgstab", *A0, 0, [&](const crsd &A, const std::vector<double> &b, std::vector<double> &x, double &rep, bool with) {
+                    size_t it; if (with) std::tie(it, rep) = ms(A, b, x); else std::tie(it, rep) = ms(b, x); }); }
+        }
+    }
+}
 static void mode_defl() {
     vr::rng g(vr::env_seed() + 1803);
     int reps = vr::env_int("VERIF_REPS", vr::thorough() ? 30 : 6);
@@ -733,6 +823,7 @@ int main(int argc, char **argv) {
     else if (mode == "cprO") mode_cprO();
     else if (mode == "defl") mode_defl();
     else if (mode == "deflmt") mode_deflmt();
+    else if (mode == "reuse") mode_reuse();
     else { std::cerr << "unknown mode\n"; return 2; }
     vr::obj o; o.str("e", "End"); vr::emit(o.done());
     return 0;
